@@ -44,6 +44,22 @@ class Ctx:
     def P(self):
         return self.prog(*self.default_cfg)
 
+    def prefixed(self, prefix):
+        """`with ctx.prefixed("nodebug|"): ...` - obligations recorded inside carry the prefix in their key (the same
+        rule run on another configuration of the crate)."""
+        ctx = self
+
+        class _P:
+            def __enter__(self_):
+                self_.old = ctx.key_prefix
+                ctx.key_prefix = ctx.key_prefix + prefix
+
+            def __exit__(self_, *a):
+                ctx.key_prefix = self_.old
+                return False
+
+        return _P()
+
     # ---- obligations -----------------------------------------------------
     def ob(self, rule, key, ok, detail="", where=None, sample=None, weak=False):
         """Record one decided obligation. key identifies the construct without line numbers."""
